@@ -330,6 +330,13 @@ func toCells(in *lisp.LVal) ([]*lisp.LVal, error) {
 		if in.Cells[0].Len() > 1 {
 			return nil, errors.New("cannot index multi-dimensional array")
 		}
+		if in.Cells[0].Len() == 0 {
+			// A zero-dimensional array is a reference to one value, not a
+			// sequence: it has no length cell for storeCells to keep in step
+			// (the in-place delete and range-set paths indexed dims[0] and
+			// panicked).
+			return nil, errors.New("cannot index zero-dimensional array")
+		}
 		cells := in.Cells[1].Cells
 		return cells, nil
 	case lisp.LSExpr:
